@@ -6,13 +6,13 @@ D = os.path.dirname(os.path.dirname(os.path.abspath(__file__)))
 # property -> (technique, level text, level note, design ref)
 CLAIMED = {
  "C01": ("per-node-type agreement of printer and parser on finite things: PRINT model of each SQL() from SSA (constants, joined pieces, guards) vs. production vocabulary / required tokens / list separators from the parser's SSA and TKAI",
-         "Decides necessary conditions of the round trip for all node types: printed words are consumed by the productions, required tokens are printed, list separators agree with what the list loops consume, commas next to possibly empty lists are guarded, an operator cannot glue with the first character of its operand.",
-         "Trusted: PRINT model extraction (methods with loops are used with their constants only), VALUE/TKAI. Not decided: ordering of printed pieces, nested interactions, equality of the two trees.", "DESIGN.md §2 C01"),
+         "Decides necessary conditions of the round trip for all node types: printed words are consumed by the productions, required tokens are printed, list separators agree with what the list loops consume, commas next to possibly empty lists are guarded, an operator cannot glue with the first character of its operand, the fields are printed in the order the productions parse them, a node rebuilt from another carries every field over, literal values survive quoting (C15/R1).",
+         "Trusted: PRINT model extraction (methods with loops are used with their constants only), VALUE/TKAI/POSFLOW. Not decided: nested interactions, equality of the two trees.", "DESIGN.md §2 C01"),
  "C02": ("information-sink analysis: fields into which the parser can store information (VALUE) vs. fields SQL() reads (PRINT); region analysis of optional-token guards; correlation of optional position flags with printed fields",
-         "Decides that every field that can carry information is read by its type's SQL(), that optional tokens skipped without a trace are documented noise words, and that optional-position flags are read or implied by a printed field.",
-         "Trusted: VALUE, PRINT. Not decided: order of printed tokens, survival of literal values (C15).", "DESIGN.md §2 C02"),
+         "Decides that every field that can carry information is read by its type's SQL(), that optional tokens skipped without a trace are documented noise words, that optional-position flags are read or implied by a printed field (one context per assignment of the flag), that a node rebuilt from another of its type copies every field, and that fields are printed in parse order.",
+         "Trusted: VALUE, PRINT, POSFLOW event order. Not decided: survival of literal values (C15).", "DESIGN.md §2 C02"),
  "C05": ("abstract evaluation of the documented pos/end expressions per allocation site over abstract positions (token start/end + TKAI token facts, InvalidPos, child Pos/End with VALUE types); parse-event ordering by CFG reachability",
-         "Decides, for all ~300 allocation sites of 264 node types: every position field assigned, pos/end chains total, pos is a token start and end a token end with offsets equal to the token length fixed by the guards on the path, sibling parse order equals declaration order.",
+         "Decides, for all ~300 allocation sites of 264 node types: every position field assigned, pos/end chains total, pos is a token start and end a token end with offsets equal to the token length fixed by the guards on the path, sibling parse order equals declaration order, and (nesting) the pos anchor is the first parse event and the end chain is in reverse parse order and complete.",
          "Trusted: TKAI facts, VALUE shapes, the C19 equality between specifications and pos.go. Not decided: numeric range of positions, Bad* ranges (C10).", "DESIGN.md §2 C05"),
  "C06": ("same abstract position evaluation as C05 plus event-order rules on the pos/end chains (first event, reverse parse order, completeness)",
          "Decides the code-shape conditions of exact ranges: the offset added to an anchor is the length of its token, the pos anchor is the first event of the production, end-chain alternatives are in reverse parse order and nothing present is parsed after the chain's fields.",
@@ -21,11 +21,11 @@ CLAIMED = {
          "Decides that each handler records exactly the tokens it skips (start, last End, clones) with one advance per cycle and nothing fetched after the loop, that both lexer modes execute the same instructions on clean text, that Bad nodes do not alias the live token, and that BadNode.SQL separates tokens by both trivia fields.",
          "Trusted: go/ssa dominators, natural-loop construction. Not decided: which tokens ought to be skipped (nesting counters), the '>>' split in handleParseTypeError.", "DESIGN.md §2 C10"),
  "C12": ("shape rules over the SSA of SplitRawStatements: use-set of the input string, condition classification, value identity of slice bounds and Pos/End, TKAI fact at each piece cut",
-         "Decides that the splitter delegates all lexical knowledge to the lexer, propagates lexical errors, cuts pieces only at ';'/<eof> tokens with Statement == input[Pos:End] by value identity, and that piece starts account for leading comments.",
-         "Trusted: go/ssa; the lexer properties C13/C14. Not decided: ordering / non-overlap arithmetic.", "DESIGN.md §2 C12"),
- "C13": ("who-may-write analysis of the cursor and token fields + cursor-epoch path analysis of nextToken (every advancing call captured by exactly one Buffer slice whose bounds are cursor loads)",
-         "Decides the tiling argument structurally: the cursor moves only in skip/skipN, every advancing call of nextToken is bracketed by the two cursor loads of exactly one stored slice, Pos/End are in the same cursor epoch as the bounds, every token field is stored on the normal exit, <eof> is a fixed point, every other return advanced.",
-         "Trusted: go/ssa. Not decided: that a computed advance is strictly positive, that Space holds only whitespace.", "DESIGN.md §2 C13"),
+         "Decides that the splitter delegates all lexical knowledge to the lexer, propagates lexical errors, cuts pieces only at ';'/<eof> tokens with Statement == input[Pos:End] by value identity, that piece starts account for leading comments; and on the lexer side that a ';' inside a raw literal after a backslash is not a cut (C14/R7) and that comment scanning is exhaustive (C14/R8).",
+         "Trusted: go/ssa; the lexer properties C13/C14. Not decided: ordering / non-overlap arithmetic of the pieces (slices of split.go).", "DESIGN.md §2 C12"),
+ "C13": ("who-may-write analysis of the cursor and token fields + relational numeric abstract interpretation of nextToken (LEXBOUNDS: linear equalities over cursor snapshots and ghost fields for the stored Space/Raw/Pos/End)",
+         "Decides the tiling argument: the cursor moves only in skip/skipN; every Space and Raw stored is a slice of the input; each Space begins where the previous comment/token ended and ends where Raw begins; Pos and End are the bounds of Raw; on every return the cursor is at the last End and Pos, End, Space, Raw are stored (Space/Raw not for a <bad> token); <eof> is a fixed point, every other return advanced.",
+         "Trusted: go/ssa; callees of nextToken are summarised as 'move the cursor forward' (their bounds are C03/R6). Not decided: that Space holds only whitespace and Raw exactly one token (C14).", "DESIGN.md §2 C13"),
  "C04": ("field-based value-flow (shape) analysis of the parser over go/ssa + per-allocation-site abstract evaluation of the consumer methods; residual-set dataflow for switch exhaustiveness",
          "Decides for every allocation site of every node type that SQL/Pos/End never dereference a field that may be nil at that site (helpers summarised, branches on site-constant fields pruned), that every type/constant switch whose fall-through panics covers what can flow to it, and that consumer indexing is length-guarded.",
          "Trusted: go/ssa, VTA; the TKAI summaries used to refine nil returns of tryParse* helpers; one listed assumption (peekDelimiter's byte guard). Not decided: trees built by hand by users.", "DESIGN.md §2 C04"),
@@ -33,38 +33,38 @@ CLAIMED = {
          "The property is about a finite table and is decided exactly: levels, token→operator constants, associativity, operand parsers, printer precedence ranks and ParenExpr preservation, for all operators.",
          "Trusted: the GoogleSQL reference table typed into the checker; TKAI guard extraction.", "DESIGN.md §2 C07"),
  "C08": ("token-kind abstract interpretation (forward dataflow over SSA, interprocedural summaries = FIRST/pass sets) + contradiction rules",
-         "Decides contradictions between a guard and what it guards at all ~1400 call sites of parse functions, producibility of every kind constant / pseudo-keyword (828 uses), inclusion of each statement production's first-token set in its routing guard, and shared productions between entry points.",
+         "Decides contradictions between a guard and what it guards at all ~1400 call sites of parse functions, producibility of every kind constant / pseudo-keyword (828 uses), inclusion of each statement production's first-token set in its routing guard, shared productions between entry points, and that no start token of a production is rejected by the dispatch in front of it (327 functions).",
          "Trusted: TKAI transfer functions (recovery handlers modelled as re-entry at the clone point). Not decided: acceptance of every sentence of the reference grammar.", "DESIGN.md §2 C08"),
  "C11": ("token-kind abstract interpretation run twice per <eof> test (<eof> vs ';') with recovery off and outcome comparison; taint analysis; call-graph rule",
          "Decides equal treatment of the two statement terminators in every production, the shape of the statement-list loop, shared productions, and position independence of the parser.",
          "Trusted: TKAI. Not decided: equality of trees up to a shift as a theorem.", "DESIGN.md §2 C11"),
  "C16": ("forward taint analysis over go/ssa (interprocedural, field-sensitive on locals) + def-use rules on token spellings",
-         "Decides that no branch of the parser and no non-position AST field depends on whitespace, comments or offsets, and that spellings are compared only through char.EqualFold; reserved words go through char.ToUpper (C14).",
-         "Trusted: go/ssa def-use, VTA. Not decided: the lexer side (re-spacing never changes token boundaries).", "DESIGN.md §2 C16"),
- "C03": ("interprocedural may-escape analysis of *Error panics over go/ssa + VTA call graph (dominance of recovering defers, flag specialisation); value-flow check of every recover() use; loop-progress analysis over token-kind states",
-         "Decides for every exported entry point that no syntax-error panic can escape (every raising instruction on every call path is dominated by a recovering defer whose handler does not raise), that every recover() value is re-panicked unless it is a *Error and recorded when it is, and the dynamic types of the error results.",
-         "Trusted: go/ssa, VTA call graph resolution, standard-library callees treated as non-raising. Not decided: run-time panics from byte arithmetic (index/slice bounds), recursion depth.", "DESIGN.md §2 C03"),
+         "Decides that no branch of the parser and no non-position AST field depends on whitespace, comments or offsets, and that spellings are compared only through char.EqualFold; reserved words go through char.ToUpper (C14); comment scanning is exhaustive and in range (C14/R8).",
+         "Trusted: go/ssa def-use, VTA. Not decided: the rest of the lexer side (re-spacing never changes token boundaries).", "DESIGN.md §2 C16"),
+ "C03": ("interprocedural may-escape analysis of *Error panics over go/ssa + VTA call graph (dominance of recovering defers, flag specialisation); value-flow check of every recover() use; loop-progress analysis over token-kind states; relational numeric abstract interpretation (unit-coefficient linear inequalities, context-sensitive by inlining, both noPanic modes) of the byte-level code",
+         "Decides for every exported entry point that no syntax-error panic can escape, that every recover() value is re-panicked unless it is a *Error and recorded when it is, the dynamic types of the error results, progress of all 94 loops, and — for lexer.go, token/quote.go and char/ — that every index, slice, cursor assignment and error position is within bounds in every calling context (132 sites).",
+         "Trusted: go/ssa, VTA call graph resolution, standard-library callees treated as non-raising, the contract of File.Position (positions <= len(Buffer)) and of utf8.DecodeRuneInString/EncodeRune, mathematical integers. Not decided: the slices of split.go and token/file.go (contents of slices), recursion depth.", "DESIGN.md §2 C03"),
  "C09": ("must-pass-through / dominance analysis on the SSA control-flow graph + who-may-write and call-graph reachability rules",
          "Decides the control-flow contract between Parser.errors, Bad nodes and the nil error for every entry point, every Bad* allocation site, every store to the error list and every Clone()/restore lookahead region.",
          "Trusted: go/ssa CFG and dominators, VTA call graph. Not decided: numeric range of error positions, one-error-per-Bad-node counting beyond 'each handler appends'.", "DESIGN.md §2 C09"),
  "C14": ("finite tables read out of the syntax tree / SSA on every run and compared with reference tables from the GoogleSQL lexical specification; exact set-domain dataflow for the byte classifiers",
-         "Decides table agreement: reserved keywords, escape decode table incl. digit counts and code-point bounds, operator recognition (matched bytes = kind spelling = bytes skipped), comment openers, dot-identifier trigger set, character classes over all 256 bytes.",
+         "Decides table agreement: reserved keywords, escape decode table incl. digit counts and code-point bounds, operator recognition (matched bytes = kind spelling = bytes skipped), comment openers, dot-identifier trigger set, character classes over all 256 bytes; the field-token reader, the raw-literal arm and IsKeyword have their shape; the comment terminator search is exhaustive (unit steps, gives up only where the terminator no longer fits, in-range accesses: LEXBOUNDS).",
          "Trusted: the reference tables typed into the checker from the documentation. Not decided: the number automaton, prefix x quote matrix, rejection of exactly the invalid inputs.", "DESIGN.md §2 C14"),
  "C15": ("encode/decode table inverse check between token/quote.go and the lexer's escape table; dominance check of raw writes on SSA; resolved-callee agreement of identifier predicates",
-         "Decides that everything the quoting functions can emit is decoded by the lexer to the value it was emitted for, that raw writes happen only after the escaper declined, that no lossy rune iteration feeds the output, and that the identifier-quoting predicate uses the lexer's classifiers.",
+         "Decides that everything the quoting functions can emit is decoded by the lexer to the value it was emitted for, that raw writes happen only after the escaper declined, that no lossy rune iteration feeds the output, that the identifier-quoting predicate uses the lexer's classifiers, and that the quoting helpers never index outside their operand (LEXBOUNDS).",
          "Trusted: specification decode table (checked against the lexer by C14/R2, which this check re-runs). Not decided: unicode.IsPrint over the full rune range.", "DESIGN.md §2 C15"),
  "C18": ("effect analysis over go/ssa: stores/escapes of addresses and references derived from package-level variables (interprocedural), import whitelist, concurrency/map-order instructions, type-graph reachability",
          "Decides that outside package initialisers nothing writes to or lets escape package-level state, that there is no ambient input or scheduling/map-order dependence, and that no AST node can alias parser/lexer/file state.",
          "Trusted: purity of the whitelisted standard-library functions; no unsafe/cgo (checked by the import rule).", "DESIGN.md §2 C18"),
  "C17": ("custom lint over the type-checked syntax tree (go/types field classification vs. generated switch) + SSA shape check of the engine",
-         "Decides structurally, for all 264 node structs, that the generated traversal table pushes exactly the node-typed fields in reverse declaration order under their own names, and that the 25-line engine has the pop/push/prune shape; this is the table the behaviour is driven by, so a wrong or missing entry is caught for every node type, including those no test traverses.",
+         "Decides structurally, for all 264 node structs, that the generated traversal table pushes exactly the node-typed fields in reverse declaration order under their own names, that the 25-line engine has the pop/push/prune shape and Preorder stops calling yield once it returned false; this is the table the behaviour is driven by, so a wrong or missing entry is caught for every node type, including those no test traverses.",
          "Trusted: go/packages+go/types view of the tree; the Go semantics of append/slices. Not decided: the dynamic 'exactly once' theorem beyond the shape of walkMain.", "DESIGN.md §2 C17"),
  "C19": ("translation validation by syntax-tree comparison: checker's own POSLANG parser + translator vs. committed pos.go / walk_internal.go",
-         "For each of the 264 node structs the documented pos/end expression is parsed with an independent parser, type-checked against the struct and compared with the body of the committed Pos()/End(); walk table against go/types; generator emitter/interpreter sibling agreement by shape.",
-         "Trusted: the checker's POSLANG parser/translator (written from the documented EBNF). Not decided: byte-for-byte generator output (would mean running repository code), run-time agreement of the reflective interpreter.", "DESIGN.md §2 C19"),
+         "For each of the 264 node structs the documented pos/end expression is parsed with an independent parser, type-checked against the struct and compared with the body of the committed Pos()/End(); walk table against go/types; generator emitter/interpreter sibling agreement by shape; each interpreter method computes the same function as the helper its emitter names (abstract execution over the finite partition of operand values their comparisons distinguish).",
+         "Trusted: the checker's POSLANG parser/translator (written from the documented EBNF). Not decided: byte-for-byte generator output (would mean running repository code), the reflective Var.Eval* methods.", "DESIGN.md §2 C19"),
 }
 NOT_APPLICABLE = {
- "C20": "Arithmetic over the lazily built line table (prefix sums, reverse search, slice bounds): needs relational numeric invariants between pos, len(Buffer) and the table contents; no numeric abstract domain is available in this sandbox and a solver is a different technique family. The structural facts in reach are too weak to count as deciding it.",
+ "C20": "Arithmetic over the lazily built line table (prefix sums, reverse search, slice bounds): needs invariants about the contents of File.lines (sorted, first 0, last len+1, sum of the split parts); the numeric domain built here (LEXBOUNDS) has scalar atoms only, and a solver is a different technique family. The one clause in reach — positions handed to File.Position by the lexer are <= len(Buffer) — is decided under C03/R6; that is too little to claim C20.",
 }
 PENDING_REASON = "check not built yet in this round (see DESIGN.md build order); not claimed until its rules run clean"
 
